@@ -10,6 +10,24 @@ import (
 )
 
 func renderSel(b *strings.Builder, s Sel) {
+	if s.Name == "node" || s.Name == "nodes" {
+		// the built-in root fields of apifu (config.go); Args holds the global id(s)
+		if s.Name == "node" {
+			fmt.Fprintf(b, "f%d: node(id: %q) { id ... on GNode { v ", s.ID, s.Args)
+		} else {
+			var ids []string
+			for _, id := range strings.Split(s.Args, ",") {
+				ids = append(ids, fmt.Sprintf("%q", id))
+			}
+			fmt.Fprintf(b, "f%d: nodes(ids: [%s]) { id ... on GNode { v ", s.ID, strings.Join(ids, ", "))
+		}
+		for _, x := range s.Sub {
+			renderSel(b, x)
+			b.WriteByte(' ')
+		}
+		b.WriteString("} }")
+		return
+	}
 	fmt.Fprintf(b, "f%d: %s(id: %d%s)", s.ID, s.Name, s.ID, s.Args)
 	if s.Raw != "" {
 		b.WriteString(" " + s.Raw)
@@ -233,6 +251,90 @@ func nestedCase(r *hx.Rand) Case {
 	}
 	c.Query = render(c.Op, c.Tree)
 	return c
+}
+
+// addNodeLookups puts 2..4 lookups of distinct global ids through apifu's built-in `node` field (and
+// sometimes a `nodes` field) among the root fields of a query, in an order that is not the order in
+// which the application returns them; one id in five does not exist.
+func addNodeLookups(r *hx.Rand, c *Case) {
+	if c.Op != "" {
+		return
+	}
+	maxID := 0
+	var walk func(t []Sel)
+	walk = func(t []Sel) {
+		for _, s := range t {
+			if s.ID > maxID {
+				maxID = s.ID
+			}
+			walk(s.Sub)
+		}
+	}
+	walk(c.Tree)
+	pool := []string{"N0", "N1", "N2", "N3", "N4", "N5", "N6", "N7", "N8", "N9"}
+	hx.Shuffle(r, pool)
+	n := r.Range(2, 4)
+	var lookups []Sel
+	for i := 0; i < n; i++ {
+		id := pool[i]
+		if r.Chance(1, 5) {
+			id = "X" + id[1:]
+		}
+		maxID++
+		s := Sel{Name: "node", ID: maxID, Args: id}
+		if r.Chance(1, 3) {
+			maxID++
+			s.Sub = []Sel{{Name: "i", ID: maxID}}
+		}
+		lookups = append(lookups, s)
+	}
+	if r.Chance(1, 3) {
+		maxID++
+		lookups = append(lookups, Sel{Name: "nodes", ID: maxID, Args: strings.Join(pool[4:4+r.Range(1, 4)], ",")})
+	}
+	// interleave with the existing root fields
+	tree := append([]Sel{}, c.Tree...)
+	for _, l := range lookups {
+		at := r.Intn(len(tree) + 1)
+		tree = append(tree[:at], append([]Sel{l}, tree[at:]...)...)
+	}
+	c.Tree = tree
+	c.Query = render(c.Op, c.Tree)
+}
+
+// nodeMatrix: every ordered pair and triple of lookups over three existing ids and a missing one,
+// next to an asynchronous sibling.
+func nodeMatrix(procs []int) []Case {
+	ids := []string{"N1", "N2", "N3", "X9"}
+	var out []Case
+	n := 0
+	add := func(sel []string) {
+		c := Case{Seed: uint64(7000 + n), RoundK: 1, Procs: procs[n%len(procs)], PAsync: 100, PBatch: []int{0, 100}[n%2], PGate: 100, PPre: []int{0, 100}[(n/2)%2]}
+		for i, id := range sel {
+			c.Tree = append(c.Tree, Sel{Name: "node", ID: i + 1, Args: id})
+		}
+		c.Tree = append(c.Tree, Sel{Name: "i", ID: 9})
+		if n%3 == 0 {
+			c.Tree = append(c.Tree, Sel{Name: "nodes", ID: 10, Args: strings.Join(sel, ",")})
+		}
+		c.Query = render("", c.Tree)
+		out = append(out, c)
+		n++
+	}
+	for _, a := range ids {
+		for _, b := range ids {
+			if a == b {
+				continue
+			}
+			add([]string{a, b})
+			for _, d := range ids {
+				if d != a && d != b {
+					add([]string{a, b, d})
+				}
+			}
+		}
+	}
+	return out
 }
 
 var connKinds = []string{"c", "ca", "cd", "t", "tu"}
